@@ -204,11 +204,12 @@ Definition loadFromDisk_gen (visited : N -> N -> list tailround -> list (N * tai
       match load_lastValid latest vis [] with
       | None => None
       | Some lvs =>
-          Some (mkTail (rev (map (fun e => (fst e, mkRl (load_leases (snd e)) (tr_proto (snd e)))) vis))
+          (* the visited rounds are distinct, so the order of the association lists is immaterial *)
+          Some (mkTail (map (fun e => (fst e, mkRl (load_leases (snd e)) (tr_proto (snd e)))) vis)
                        lvs
                        latest                       (* t.lowWaterMark = l.Latest() *)
                        []
-                       (rev (map (fun e => (fst e, tr_proto (snd e))) vis))
+                       (map (fun e => (fst e, tr_proto (snd e))) vis)
                        base)
       end
   end.
@@ -248,18 +249,21 @@ Fixpoint replay (p : proto) (blocks : list (N * list tx)) (rounds : list N) (t :
 Record cow := mkCow { c_ids : list N; c_leases : list (lkey * N) }.   (* mods.Txids, mods.Txleases *)
 Definition cow0 : cow := mkCow [] [].
 
-(* roundCowState.checkDup along the lookupParent chain (innermost child first); the
-   roundCowBase at the end asks the ledger: CheckDup(proto, rnd+1 = hdr.Round, ...) *)
-Fixpoint cow_checkDup (chain : list cow) (t : tail) (p : proto) (hdr fv lv id : N) (k : lkey) : dupres :=
+(* roundCowState.checkDup along the lookupParent chain (innermost child first); [base] is the
+   answer of the roundCowBase at the end of the chain *)
+Fixpoint cow_check (chain : list cow) (p : proto) (hdr id : N) (k : lkey) (base : dupres) : dupres :=
   match chain with
-  | [] => checkDup t p hdr fv lv id k
+  | [] => base
   | c :: parents =>
       if existsb (N.eqb id) (c_ids c) then DupTxEval
       else if p_sup p && negb (snd k =? 0) &&
               match klookup k (c_leases c) with Some e => hdr <=? e | None => false end
       then DupLeaseEval
-      else cow_checkDup parents t p hdr fv lv id k
+      else cow_check parents p hdr id k base
   end.
+(* the roundCowBase asks the ledger: CheckDup(proto, rnd+1 = hdr.Round, ...) *)
+Definition cow_checkDup (chain : list cow) (t : tail) (p : proto) (hdr fv lv id : N) (k : lkey) : dupres :=
+  cow_check chain p hdr id k (checkDup t p hdr fv lv id k).
 
 Definition cow_addTx (c : cow) (x : tx) : cow :=
   mkCow (t_id x :: c_ids c)
@@ -334,14 +338,14 @@ Definition step_orig := step_gen loadFromDisk_orig.
 
 (* ---------- the discipline the ledger follows (what a "history" is) ---------- *)
 (* a payset the evaluator can have produced at round r, as far as the txTail relies on it:
-   every transaction alive in r with a window of at most MaxTxnLife, and no two transactions
-   of the block holding the same non-zero lease *)
+   every transaction alive in r with a window of at most MaxTxnLife, and (when the protocol
+   supports leases) no two transactions of the block holding the same non-zero lease *)
 Fixpoint nodup_keys (l : list lkey) : bool :=
   match l with [] => true | k :: t => negb (existsb (lkey_eqb k) t) && nodup_keys t end.
 Definition leased (txs : list tx) : list tx := filter (fun x => negb (t_lease x =? 0)) txs.
 Definition blk_ok (p : proto) (r : N) (txs : list tx) : bool :=
   forallb (fun x => (t_fv x <=? r) && (r <=? t_lv x) && (t_lv x <=? t_fv x + p_life p)) txs &&
-  nodup_keys (map t_key (leased txs)).
+  (negb (p_sup p) || nodup_keys (map t_key (leased txs))).
 
 Definition op_ok (p : proto) (s : sys) (o : op) : bool :=
   match o with
